@@ -79,6 +79,11 @@ def applyMove (kind n : Nat) (r : Rec) (act : List Nat) : Rec :=
   else if kind = 2 then localOp2 n r (act.getD 0 0) (act.getD 1 0)
   else localOpK n r (act.take kind) ((act.drop kind).take kind) (act.drop (2 * kind))
 
+/-- a move section starting with `-1` is `step_to_solution(td, solution)` (the `solution_to` branch of
+`_step`: the next tour is the given array); anything else is an action for `_local_operator` -/
+def applyMoveI (kind n : Nat) (r : Rec) (mv : List Int) : Rec :=
+  if mv.head? = some (-1) then recOf mv.tail else applyMove kind n r (toNats mv)
+
 /-- `improve.steps kind n | D | rec0 | move | move | …`  kind 0 = PDP, 2 = 2-opt, K>2 = k-opt.
 Replays `_reset` + a sequence of `_step`s; one `;`-separated entry per state (reset included). -/
 def steps (toks : List String) : Option String := do
@@ -88,7 +93,7 @@ def steps (toks : List String) : Option String := do
   let D := fn2 n dm
   let s0 := freezeState n (reset n D (recOf rc))
   let states := (moves.foldl (fun (acc : List State × State) mv =>
-      let s' := freezeState n (step n D (applyMove kind n) acc.2 (toNats mv))
+      let s' := freezeState n (step n D (applyMoveI kind n) acc.2 mv)
       (s' :: acc.1, s')) ([s0], s0)).1.reverse
   let col (f : State → String) := ";".intercalate (states.map f)
   pure s!"cur={col (fun s => recStr n s.recCur)} best={col (fun s => recStr n s.recBest)} ccur={col (fun s => toString s.costCur)} cbsf={col (fun s => toString s.costBsf)} rew={col (fun s => toString s.reward)} vt={col (fun s => recStr n s.vt)}"
